@@ -294,7 +294,18 @@ func (sc *SpecCtx) load(l *Loc) Term {
 	if sc.hp != nil {
 		return sc.hp.load(sc, l)
 	}
-	return sc.vc.load(sc.st, l)
+	vc := sc.vc
+	t := vc.load(sc.st, l)
+	// closed entry heap (see unop load): references stored in objects that existed at
+	// entry point to objects that existed at entry
+	if h, ok := sc.st.heap[l.Comp]; (!ok || h.S == l.Comp+"!0") && vc.hasRefs(l.Ty) && !strings.Contains(t.S, "q_") && !strings.Contains(t.S, "p!") {
+		key := "closed:" + t.S
+		if !vc.uf[key] {
+			vc.uf[key] = true
+			vc.assert(implies(lt(l.Ref, vc.alloc0), vc.typeInv(t, l.Ty, vc.alloc0)))
+		}
+	}
+	return t
 }
 
 // unify coerces an untyped literal operand to the sort of the other operand.
@@ -770,7 +781,10 @@ func (sc *SpecCtx) tryType(name string) (t types.Type) {
 func (sc *SpecCtx) specConvert(v Val, ty types.Type) Val {
 	vc := sc.vc
 	if ii, ok := vc.intInfo(ty); ok {
-		if vc.bv {
+		if !vc.bvType(ty) && isBV(v.T.Sort) {
+			return vc.convertVal(sc.st, v, ty, "sconv")
+		}
+		if vc.bvType(ty) {
 			if isBV(v.T.Sort) {
 				return vc.convertVal(sc.st, v, ty, "sconv")
 			}
